@@ -110,6 +110,9 @@ func classifyParseErr(msg string) string {
 
 func runC14(e *env) error {
 	e.rep.Rule = "cases = (parse profile, object kind, parameter list, result list): ALL parameter lists of length 0..N over a 9-letter role alphabet (source-typed, second source, regex-context name, local-context name, converter-typed, update-named, unnamed, blank) x ALL result lists of length 0..M over {Out, builtin error, package-level type named error, int, a defined type with error's underlying type, the literal interface{Error() string}} x 10 ParseOpts profiles (converter method, with regex / update / local context, extend, extend from another output package, map|FUNC, default, struct method, multi-source), plus non-function, unexported and generic objects; real method.Parse on go/types objects built in memory vs Gv.Signature.parse. quick: <=3 params x <=2 results over the base result alphabet, error look-alikes and 3 results with <=2 params; thorough: <=4 params x <=2 base results, <=3 params with look-alikes, 3 results with <=2 params. non-trivial = at least one parameter or result; distinct = canonical request"
+	if err := runC14Both(e); err != nil {
+		return err
+	}
 	w := newSigWorld()
 	maxP, maxR := 3, 2
 	if e.thorough {
@@ -169,6 +172,9 @@ func runC14(e *env) error {
 	var reqs, impl []*sx.Node
 	var descr []map[string]any
 	one := func(prof sigProfile, objKind string, ps []sigParam, rs []string) {
+		if sigGridSkip(prof, objKind, rs) {
+			return
+		}
 		var rx *regexp.Regexp
 		if prof.Regex != "" {
 			rx = regexp.MustCompile(prof.Regex)
